@@ -37,4 +37,36 @@ def effectiveVolumesAt (moves : List MoveRow) (k : Key) (pit : Int) : Volumes :=
   | some m => m.pcev
   | none => Volumes.zero
 
+/-- The latest move of `k` (largest `seq`) inserted at or before `pit`. -/
+def lastInsertionMove : List MoveRow → Key → Int → Option MoveRow
+  | [], _, _ => none
+  | m :: r, k, pit =>
+    if m.key = k ∧ m.insertionDate ≤ pit then
+      match lastInsertionMove r k pit with
+      | none => some m
+      | some b => some (if m.seq < b.seq then b else m)
+    else lastInsertionMove r k pit
+
+/-- `first_value(post_commit_volumes) over (partition by accounts_address, asset order by seq desc)`
+    restricted to `insertion_date <= pit`; no move ⇒ zero volumes. -/
+def insertionVolumesAt (moves : List MoveRow) (k : Key) (pit : Int) : Volumes :=
+  match lastInsertionMove moves k pit with
+  | some m => m.pcv
+  | none => Volumes.zero
+
+/-- C03 at move level: a move's post-commit volumes are the sum of the deltas of the moves of
+    its account/asset up to and including itself, in `seq` order. -/
+def PCV_Inv (table : List MoveRow) : Prop :=
+  ∀ m ∈ table, m.pcv = sumDeltas (table.filter fun m' => m'.key == m.key && decide (m'.seq ≤ m.seq))
+
+/-- `GetAggregatedBalances` with an empty filter and no point in time: per asset
+    (Σ input, Σ output) over the `accounts_volumes` rows (`sum(input), sum(output) … group by asset`). -/
+def aggregatedVolumes (av : PCV) : Map String Volumes :=
+  av.foldl (fun m e => m.insertWith Volumes.add e.1.2 e.2) []
+
+/-- The same at a point in time / window, from the Spec fold: per asset the sum over a list of
+    accounts of their volumes in the window. -/
+def aggregatedAt (txs : List TxRec) (w : Window) (mode : DateMode) (accts : List String) (s : String) : Volumes :=
+  accts.foldl (fun acc a => acc.add (volumesAt txs w mode (a, s))) Volumes.zero
+
 end Ledger.Spec
